@@ -234,10 +234,37 @@ func deepNest(t *rapid.T) (string, string) {
 	}
 }
 
+// fragmentGraph writes a request whose named fragments spread each other along a drawn graph:
+// chains, diamonds, self loops and cycles of any length, entered from any fragment.
+func fragmentGraph(t *rapid.T) string {
+	n := rapid.IntRange(1, 6).Draw(t, "nFrags")
+	pool := rapid.Permutation([]string{"Aa", "Bb", "Cc", "Dd", "Zz", "M", "a", "F0", "F1"}).Draw(t, "fragNames")
+	names := pool[:n]
+	var b strings.Builder
+	entry := rapid.SampledFrom(names).Draw(t, "entry")
+	where := rapid.SampledFrom([]string{"{...%s}", "{obj{...%s}}", "{objs{...%s str}}", "query Q{str ...%s}"}).Draw(t, "entryShape")
+	fmt.Fprintf(&b, where, entry)
+	for i, name := range names {
+		fmt.Fprintf(&b, " fragment %s on Query {str", name)
+		for j := 0; j < rapid.IntRange(0, 2).Draw(t, fmt.Sprintf("f%dn", i)); j++ {
+			target := rapid.SampledFrom(names).Draw(t, fmt.Sprintf("f%d_%d", i, j))
+			if rapid.Bool().Draw(t, fmt.Sprintf("f%d_%dnest", i, j)) {
+				fmt.Fprintf(&b, " obj{...%s}", target)
+			} else {
+				fmt.Fprintf(&b, " ...%s", target)
+			}
+		}
+		b.WriteString("}")
+	}
+	return b.String()
+}
+
 func genInput(t *rapid.T) *Input {
 	in := &Input{Fault: -1}
-	switch kind := rapid.SampledFrom([]string{"exe-soup", "exe-mutated", "exe-mutated", "exe-adversarial", "exe-adversarial", "exe-valid-badvars", "sdl-soup", "sdl-mutated", "sdl-mutated",
+	switch kind := rapid.SampledFrom([]string{"exe-soup", "exe-mutated", "exe-mutated", "exe-adversarial", "exe-adversarial", "exe-valid-badvars", "exe-fragment-graph", "exe-fragment-graph", "sdl-soup", "sdl-mutated", "sdl-mutated",
 		"sdl-valid", "value-soup", "value-bytes", "bytes", "deep-nesting", "writer"}).Draw(t, "kind"); kind {
+	case "exe-fragment-graph":
+		in.Target, in.Text, in.Note = "exe", fragmentGraph(t), kind
 	case "exe-soup":
 		in.Target, in.Text, in.Note = "exe", genSoup(t, exeTokens, "x"), kind
 	case "exe-mutated":
